@@ -12,6 +12,17 @@ def span_agg(t):
     return None
 
 
+def span_of(t):
+    """a span written out (`SourceSpan { start, end }`) or converted from one position-like value (`x.into()`,
+    `SourceSpan::from(x)`; conversions are transparent in terms): then both ends are that value"""
+    sp = span_agg(t)
+    if sp is not None:
+        return sp
+    if isinstance(t, tuple) and t and t[0] in ("call", "field", "vfield"):
+        return {"start": t, "end": t}
+    return None
+
+
 def ctx_span_end(t):
     return isinstance(t, tuple) and t[0] == "field" and t[2] == "end" and is_call(t[1], "Context::span")
 
@@ -76,7 +87,7 @@ def lr_span_forms(F):
         r = [e[1] for e in p.events if e[0] == "return"]
         if not r or r[0][0] != "agg":
             continue
-        sp = span_agg(dict(r[0][2]).get("1"))
+        sp = span_of(dict(r[0][2]).get("1"))
         if not sp:
             continue
         em = idiom.path_emptiness(p, popped, extra)
@@ -104,7 +115,7 @@ def glr_span_forms(F):
         if not node:
             continue
         data = dict(node[2]).get("data")
-        sp = span_agg(dict(data[2]).get("span")) if isinstance(data, tuple) and data[0] == "agg" else None
+        sp = span_of(dict(data[2]).get("span")) if isinstance(data, tuple) and data[0] == "agg" else None
         if not sp:
             continue
         em = idiom.path_emptiness(p, parents)
